@@ -2,6 +2,7 @@ package main
 
 import (
 	"go/token"
+	"go/types"
 	"strings"
 
 	"golang.org/x/tools/go/ssa"
@@ -180,6 +181,53 @@ func checkC19(e *Engine, r *Report) {
 				}
 			}
 			r.Check(ok, "sign doc field › "+w.description, e.Pos(sb[0].Pos()), w.typ+"."+w.field+" → StdSignBytes argument "+itoa(w.idx), "the "+w.description+" of the sign doc is not part of the bytes that are hashed: a signature also authorises transactions that differ in it")
+		}
+		// the sequence rendered is the sequence of THE signer: SignerInfos is indexed only with a constant k under a guard that
+		// proves len(SignerInfos) == k+1 (exactly one signer info) — with more entries the rendered sequence belongs to somebody
+		// else than the signer being verified, and the rendering stops being injective in that signer's sequence
+		{
+			okIdx, nIdx := true, 0
+			allInstrs(fn, false, func(_ *ssa.Function, _ *ssa.BasicBlock, in ssa.Instruction) {
+				ia, ok := in.(*ssa.IndexAddr)
+				if !ok || !hasFieldLoad(sliceFrom(ia.X), "AuthInfo", "SignerInfos") {
+					return
+				}
+				if st, isS := ia.X.Type().Underlying().(*types.Slice); !isS || namedTypeName(st.Elem()) != "SignerInfo" {
+					return // some other indexed value that merely mentions the field (the varargs of the error message)
+				}
+				nIdx++
+				k, isK := constInt(ia.Index)
+				if !isK {
+					okIdx = false
+					return
+				}
+				proved := false
+				for _, i := range ifs(fn) {
+					b, isB := i.Cond.(*ssa.BinOp)
+					if !isB || (b.Op != token.EQL && b.Op != token.NEQ) {
+						continue
+					}
+					n, isN := constInt(b.Y)
+					lc, _ := callOf(b.X)
+					if !isN || n != k+1 || lc == nil {
+						continue
+					}
+					if bi, isBi := lc.Call.Value.(*ssa.Builtin); !isBi || bi.Name() != "len" || !hasFieldLoad(sliceFrom(lc.Call.Args[0]), "AuthInfo", "SignerInfos") {
+						continue
+					}
+					sv := 0
+					if b.Op == token.NEQ {
+						sv = 1
+					}
+					if blockDominatedByEdge(fn, ia.Block(), Guard{If: i, Survive: sv}) {
+						proved = true
+					}
+				}
+				if !proved {
+					okIdx = false
+				}
+			})
+			r.Check(okIdx && nIdx > 0, "sign doc field › sequence of the only signer", e.Pos(fn.Pos()), "SignerInfos[0] under len(SignerInfos) == 1", "the signer info whose sequence is rendered is selected without proving there is exactly one: for a document with several signer infos the rendered sequence is not the verified signer's, so one signature covers documents that differ in that signer's sequence (replay of a stale fee-payer signature)")
 		}
 		fee := sliceFrom(a[4])
 		r.Check(hasFieldLoad(fee, "Fee", "Amount") && hasFieldLoad(fee, "Fee", "GasLimit"), "sign doc field › fee (amount, gas limit)", e.Pos(sb[0].Pos()), "StdFee{Amount: authInfo.Fee.Amount, Gas: authInfo.Fee.GasLimit}", "fee amount or gas limit of the sign doc is not part of the hashed bytes")
